@@ -9,6 +9,22 @@ BASELINE = ("cd /repo && env -u PYCRAFT_VERIF /venv/bin/python -m pytest -ra -q 
             "--timeout=900 --continue-on-collection-errors")
 
 CHECKS = {
+    'C10': dict(
+        technique='TLA+ model of the login reactor (SessionLogin.tla) explored exhaustively over all admissible server scripts; '
+                  'every behaviour replayed into a real Connection against an independent peer that decrypts (own CFB8, RSA private '
+                  'key) and de-envelopes (S->I); those runs and longer random scripts validated against the contract '
+                  'Trace_Login.tla by TLC (I->S)',
+        text='SessionLogin.tla enumerates every admissible order of {encryption request (online/offline), set-compression, plugin '
+             'requests, success | disconnect(4 message kinds)} x auth token x user plugin handler x plugin-capable version class and '
+             'checks NoPlaintextAfterEncResponse, ThresholdApplied, PluginAnsweredExactlyOnce, DisconnectAlwaysSurfaces, '
+             'JoinOnlyOnlineWithToken and termination. Each behaviour runs against the real client at versions either side of '
+             '385/391/707: the peer recovers secret and token with the private key, switches its own cipher and envelope at the '
+             'byte where the protocol says so (any deviation garbles the stream), checks the join hash, and the frames, modes, '
+             'join calls and surfaced exception are compared with the model and validated event by event by the contract in TLC.',
+        note='Trusted: TLC, virtual socket layer, peer codec, cryptography package for RSA and the AES block, hashlib for the join '
+             'hash oracle (C17 checks that against TLA+). Thresholds 0,1,64,256,2^31-1 with user-handler payloads sized '
+             'thr-1/thr/thr+1.',
+        design='5/C10'),
     'C11': dict(
         technique='TLA+ model of the play-state loop (SessionPlay.tla) explored exhaustively by TLC; every behaviour replayed '
                   'into a real Connection under a deterministic scheduler with an independent scripted peer (S->I); long seeded '
